@@ -105,11 +105,13 @@ class Batch(object):
         self.nfiles = 0
         self.ncases = 0
 
-    def add_file(self, data):
+    def add_file(self, data, mtime=None):
         self.nfiles += 1
         p = os.path.join(self.dir, "f%d.conf" % self.nfiles)
         with open(p, "wb") as f:
             f.write(data)
+        if mtime is not None:
+            os.utime(p, (mtime, mtime))
         return p
 
     def case(self, name, commands):
